@@ -12,7 +12,9 @@ pub mod c09;
 pub mod c10;
 pub mod c11;
 pub mod c13;
+pub mod c14;
 pub mod c15;
+pub mod c18;
 
 pub fn property(id: &str) -> Option<PropertyDef> {
     match id {
@@ -28,7 +30,9 @@ pub fn property(id: &str) -> Option<PropertyDef> {
         "C10" => Some(c10::def()),
         "C11" => Some(c11::def()),
         "C13" => Some(c13::def()),
+        "C14" => Some(c14::def()),
         "C15" => Some(c15::def()),
+        "C18" => Some(c18::def()),
         _ => None,
     }
 }
